@@ -407,7 +407,7 @@ fn func_arg_to_native_expr(node: &FunctionArg) -> Result<Box<Expr>, QueryError> 
 }
 
 fn strip_quotes(ident: &str) -> String {
-    if ident.starts_with('`') || ident.starts_with('"') {
+    if ident.len() >= 2 && (ident.starts_with('`') || ident.starts_with('"')) {
         ident[1..ident.len() - 1].to_string()
     } else {
         ident.to_string()
